@@ -662,7 +662,8 @@ class TypeTransformer:
         if self.no_explicit_cast:
             return t(data)  # noqa
         if not self.no_data_loss:
-            if data in t.__members__:  # noqa
+            if data in t.__members__ and data not in t._value2member_map_:  # noqa
+                # (a value wins over a member name: values are what the encoder writes)
                 return t.__members__[data]  # noqa
         member_type = getattr(t, "_member_type_", None)
         if member_type and member_type != object:
